@@ -118,6 +118,8 @@ func runC14(c *Ctx) {
 			ok := re(`^call:\(lib/common\.Hash\)\.Bytes\(call:kai/state/cstate\.saveValidatorsInfo\(call:iface:\(kai/kaidb\.Batcher\)\.NewBatch\(db\), state\.LastHeightValidatorsChanged, state\.` + set + `\)\)$`).MatchString(got[f])
 			c.Check("F", fnName(fn)+"/"+f+" is the key of the saved state."+set+" record", ok, fn.Pos(), 1, clip(got[f], 200))
 		}
+		okP := re(`^call:\(lib/common\.Hash\)\.Bytes\(call:kai/state/cstate\.saveConsensusParamsInfo\(call:iface:\(kai/kaidb\.Batcher\)\.NewBatch\(db\), state\.LastHeightConsensusParamsChanged, state\.ConsensusParams\)\)$`).MatchString(got["ConsensusParamsInfoHash"])
+		c.Check("F", fnName(fn)+"/ConsensusParamsInfoHash is the key of the saved consensus-params record", okP, fn.Pos(), 1, "the per-height record names the params record by "+clip(got["ConsensusParamsInfoHash"], 160)+"; the loader looks the record up under this hash, so it must be the key saveConsensusParamsInfo wrote under (ToProto's own hash covers the params only)")
 		next := CallTo(`^kai/state/cstate\.saveValidatorsInfo$`, `state\.NextValidators\)$`)
 		c.OnEveryPath(fn, "save the next validator set", next, "return", AnyReturn())
 		c.OnEveryPath(fn, "save the consensus params", CallTo(`^kai/state/cstate\.saveConsensusParamsInfo$`, ""), "return", AnyReturn())
